@@ -30,9 +30,11 @@ ASSUMPTIONS = ["with sort_attribute_values=True the printed line is not compared
                "of exactly the characters gffutils re-encodes",
                "GTF imports run with inference disabled (derived features are C03's business)"]
 
-GFF3_VALS = ["a", "b c", "x;y", "p=q", "1,2", "100%", "t\tu", "é", "a&b", "v1", "Z"]
+GFF3_VALS = ["a", "b c", "x;y", "p=q", "1,2", "100%", "t\tu", "é", "a&b", "v1", "Z", "a+b"]
 PLAIN_VALS = ["a", "b c", "é", "x_1", "v1", "Z", "7", "u\u2028v", "n\x85l"]
 PLAIN_ESC_VALS = PLAIN_VALS + ["50%25", "a%3Bb", "x%2Cy", "100%"]  # GTF/GFF2 have no escaping: kept verbatim
+# quoted dialect only: a value may itself begin or end with a double quote inside its surrounding quotes
+GTF_QUOTE_VALS = PLAIN_VALS + ['"alpha" subunit', 'subunit "beta"', 'a "mid" b']
 
 
 def budget(tier):
@@ -53,6 +55,8 @@ def gen(rng, tier):
     else:
         keys = ["gene_id", "transcript_id", "exon_number", "tag", "note"]
         vals = PLAIN_ESC_VALS if (fam == "gtf" and rng.random() < 0.4) else PLAIN_VALS
+        if fam == "gtf" and rng.random() < 0.15:
+            vals = GTF_QUOTE_VALS
     n = rng.choice([1, 2, 3, 3, 5, 8, 11, 14]) if rng.random() > 0.03 else rng.choice([120, 400, 1050])
     keep_order = rng.random() < 0.7
     sortv = rng.random() < 0.2
@@ -95,13 +99,14 @@ def gen(rng, tier):
             attrs.insert(rng.randint(1, len(attrs)), ["flag", []])
             if keep_order and i > 0:
                 attrs = [a for a in attrs if a[0] != "flag"] + [["flag", []]]
-        s, e = G.rand_span(rng, [1, 5, 10, 100, 1 << 17, (1 << 17) + 1])
+        s, e = G.rand_span(rng, [1, 5, 10, 100, 1 << 17, (1 << 17) + 1] if rng.random() < 0.9 else
+                           [1, 100, (1 << 29) - 1, 1 << 29, (1 << 29) + 1, 1 << 31])  # the bin scheme ends at 2**29: still features
         if rng.random() < 0.1:
             s, e = None, None
         ftype = rng.choice(["gene", "mRNA", "exon", "CDS"])
         cols = [rng.choice(["chr1", "chr2", "2L"]), rng.choice(["src", "."]), ftype, s, e, rng.choice([".", "0.5", "12"]),
                 rng.choice(["+", "-", "."]), rng.choice([".", "0", "1"])]
-        extra = [rng.choice(["x", "y z", "1"]) for _ in range(extra_cols)]
+        extra = [rng.choice(["x", "y z", "1", "", "x"]) for _ in range(extra_cols)]  # an extra column may be empty (the line then ends with a tab)
         feats.append(mf(cols, attrs, extra))
     if keep_order and feats and fam == "gff3":
         feats[0]["attrs"] = [a for a in feats[0]["attrs"] if a[0] != "flag"]
@@ -115,6 +120,12 @@ def gen(rng, tier):
                 for lk in late:
                     if rng.random() < 0.8:
                         f["attrs"].append([lk, [rng.choice(PLAIN_VALS)]])
+    if fam == "gff3" and not d["trail"]:
+        for i, f in enumerate(feats):
+            la = f["attrs"][-1] if f["attrs"] else None
+            if la and la[1] and la[0] != "ID" and rng.random() < 0.1:
+                # the line's last value ends in a blank (no trailing semicolon in this file): the blank is data
+                la[1] = list(la[1][:-1]) + [la[1][-1] + " "]
     return {"dialect": d, "feats": feats, "checklines": checklines, "keep_order": keep_order, "sort_values": sortv,
             "dbfn": rng.choice(["a.db", "a.db", "a.db", ":memory:"]), "form": rng.choice(["path", "path", "string", "gz", "gen", "iter1"]),
             "end": rng.choice(["exit", "crash", "crash"]), "directives": rng.choice([[], [], ["gff-version 3"]]),
